@@ -45,6 +45,9 @@ CHECKS = {
  "C14": ("exploration", "exhaustive program enumeration of decorations of base struct definitions, byte-for-byte differential against the base",
    "Every insertion of an excluded field (every position, every struct, a menu of Go types and names) and every replacement of a run of fields by an embedded struct is generated, compiled and run next to its base definition; files must be byte-identical for every enumerated value and excluded fields must scan back as zero.",
    "One decoration per program; base definitions are asserted to pass the C05 oracles first.", "4/C14"),
+ "C15": ("exploration", "two-stage exhaustive program enumeration (write with the source struct, regenerate from the file, read back)",
+   "Every source struct of the non-repeated grammar is generated and compiled, writes files for every record structure up to a node bound with extreme values, and parquetgen -parquet regenerates struct + reader from the file; the regenerated schema must equal what the reference parser finds in the file and the regenerated reader must return exactly the written values.",
+   "Source structs whose own writer fails produce no file and are counted, not judged.", "4/C15"),
  "C16": ("exploration", "bounded exhaustive file enumeration vs independent parser, field-by-field",
    "ReadMetaData, PageHeaders and PageHeadersAtOffset (every chunk start and every page start) are compared field by field with the reference parser's footer tree and sequential walk over the exhaustive file families.",
    "Library-written files only.", "4/C16"),
